@@ -1,2 +1,2 @@
-/- C03 — theorems are being added. -/
-import DsdVerif.Model.World
+/- C03 — views describe the current rotation: theorems are in Props/C03Views.lean. -/
+import DsdVerif.Props.C03Views
